@@ -5,7 +5,9 @@ cd "$(dirname "$0")"
 export GOFLAGS=-mod=mod GOPROXY=off GOSUMDB=off GOTOOLCHAIN=local
 mkdir -p .cache evidence replays
 (cd extract && go build -o ../.cache/verifx .)
+(cd extract/rangesites && go build -o ../../.cache/verifrs .)
 ./.cache/verifx --repo "${VERIF_REPO:-/repo}"
+./.cache/verifrs "${VERIF_REPO:-/repo}" "$PWD/lean/SyslModel/Gen/RangeSites.lean"
 (cd lean && lake build)
 cp "${VERIF_REPO:-/repo}/go.sum" harness/go.sum
 (cd harness && go build -tags verif -o ../.cache/verifh .)
